@@ -86,7 +86,8 @@ ToOutcome(i, j) ==
 \* ---- numpy catalogue (C10)
 Keep1 == {"sum", "mean", "amin", "amax", "min", "max", "abs", "absolute", "fabs", "negative", "positive", "median", "std", "cumsum", "sort",
           "diff", "nansum", "nanmin", "nanmax", "nanmean", "round", "floor", "ceil", "flip", "roll", "ptp", "squeeze", "ravel", "copy",
-          "sum_axis0", "mean_axis1k", "sum_axis_pos", "amax_axis0", "cumsum_axis1", "sort_axis0", "std_axis0", "sum_out0", "mean_out0", "amax_out0"}     \* one Array argument (last ones: keyword forms)
+          "sum_axis0", "mean_axis1k", "sum_axis_pos", "amax_axis0", "cumsum_axis1", "sort_axis0", "std_axis0", "sum_out0", "mean_out0", "amax_out0",
+          "sum_outn", "amax_axis0_outn", "sort_axisn", "mean_axisn"}     \* one Array argument (last ones: keyword forms; outn / axisn: the keyword given explicitly as None)
 Keep2 == {"add", "subtract", "maximum", "minimum", "hypot", "fmax", "fmin"}                        \* two operands, result in the first one's unit
 KeepSeq == {"concatenate", "stack", "hstack", "vstack"}                                            \* a sequence of Arrays
 Pred1 == {"isfinite", "isnan", "isinf", "logical_not", "signbit"}
